@@ -84,6 +84,12 @@ func plans(prop, tier string) []drv.Plan {
 				add(s.P, s.W, s.N, mode, "err1", "noclose", b)
 			}
 		}
+		// Close racing with the Writes: nothing published into a ring that never overflowed may vanish
+		for _, s := range []shape{{1, 1, 1}, {1, 2, 2}, {2, 1, 2}} {
+			for _, mode := range []string{"waiter", "poller"} {
+				add(s.P, s.W, s.N, mode, "normal", "closeearly", 3)
+			}
+		}
 		for _, s := range []shape{{1, 1, 1}, {1, 2, 2}, {2, 1, 1}, {2, 1, 4}} {
 			for _, mode := range []string{"waiter", "poller"} {
 				add(s.P, s.W, s.N, mode, "normal", "fatal", b)
